@@ -246,6 +246,11 @@ func genC15(col *ev.Collector) func(t *rapid.T) c15Case {
 				if rapid.IntRange(0, 3).Draw(t, "othername") == 3 {
 					p.Name = c15Text(t, "name", 1, 8, special)
 				}
+				// like the library's own SBOM extractors, whose packages carry the version
+				// only inside the purl (Package.Version stays empty)
+				if rapid.IntRange(0, 4).Draw(t, "version_only_in_purl") == 4 {
+					p.Version = ""
+				}
 			}
 			nl := rapid.IntRange(1, 3).Draw(t, "nloc")
 			for j := 0; j < nl; j++ {
@@ -434,6 +439,12 @@ func propC15(c c15Case) (ev.Outcome, error) {
 	}
 	if len(wantCDX) != len(c.Packages) {
 		classes = append(classes, "has_package_without_purl")
+	}
+	for _, gp := range c.Packages {
+		if gp.Purl != nil && gp.Purl.Version != "" && gp.Version == "" {
+			classes = append(classes, "version_only_in_purl")
+			break
+		}
 	}
 	if len(wantSPDX) != len(wantCDX) {
 		classes = append(classes, "has_purl_without_version")
